@@ -95,7 +95,8 @@ def _run(cid, cfg_idx, seed, out):
         if npaths > 3000:
             raise sc.PathLimit('more than 3000 paths')
         fp = hashlib.sha1(repr([(l, d) for (_, _, l), d in zip(ctx.pc, ctx.decisions)]).encode()).hexdigest()[:8]
-        _domain_obligations(ck, ctx)
+        if c.domain:
+            _domain_obligations(ck, ctx)
         if not ck.obligs:
             # a path with no obligation at all is vacuous: keep a reach obligation
             w = ck.witness()
